@@ -34,39 +34,39 @@ PRINTRULE = "random printer cases from one seeded PRNG (sharded): entry points S
 
 PROPS = {
     "C01": {
-        "gens": BUF + LOW[1:] + [Q("q01", 2400, 80000)],
+        "gens": BUF + LOW[1:] + [Q("q01", 9600, 80000)],
         "qtags": ["Q:C01", "Q:closure", "Q:C11"],
         "rule": BUFRULE + "; EscapeBytes on all strings over the escape alphabet; " + PRINTRULE + "; Join/EscapeBytes results",
         "exhaustive": True,
         "assumptions": ["raw (pre-redactable) writes are of well-formed, marker-closed fragments (hypothesis rawok of the theorems; enforced by the driver with the same extracted predicate)"],
     },
     "C02": {
-        "gens": [Q("q02", 2400, 80000)],
+        "gens": [Q("q02", 9600, 80000)],
         "qtags": ["Q:C02", "Q:C11"],
         "rule": "for each generated shape (format + operand tree), three instantiations of the leaves not declared safe (strings/byte slices: same rune count, line feeds at the same rune positions; integers: zero stays zero; floats, bools arbitrary; strings returned/written by user methods likewise; map keys, '*' operands, declared-safe values, literals shared): Redact() of the three outputs must be byte-identical; " + PRINTRULE,
         "assumptions": ["the instantiation relation is the reading of 'same shape, same emptiness, same line-break positions' given in DESIGN.md"],
     },
     "C03": {
-        "gens": BUF + LOW[1:] + [Q("q01", 2400, 80000)],
+        "gens": BUF + LOW[1:] + [Q("q01", 9600, 80000)],
         "qtags": ["Q:C03", "Q:C11"],
         "rule": BUFRULE + "; EscapeBytes on all strings over the escape alphabet; " + PRINTRULE + "; per-line redaction/stripping compared with whole-string redaction/stripping",
         "exhaustive": True,
         "assumptions": ["raw writes are line-safe fragments (rawok)"],
     },
     "C04": {
-        "gens": [Q("q04", 3200, 100000)],
+        "gens": [Q("q04", 12800, 100000)],
         "qtags": ["Q:C04", "Q:C11"],
         "rule": "fmt-compatible cases (valid UTF-8; no redact-specific types; no %w; no '0' with '-'): StripMarkers(redact.Sprint/Sprintf/Fprint/Fprintf) = fmt.Sprint/Sprintf with markers replaced by '?', and the two panic together; Stringer/error/Formatter/GoStringer scripts incl. panicking and nil receivers; " + PRINTRULE,
         "assumptions": ["reference = the standard fmt of the installed toolchain (go1.23)"],
     },
     "C05": {
-        "gens": [Q("q05", 3200, 100000)],
+        "gens": [Q("q05", 12800, 100000)],
         "qtags": ["Q:C05", "Q:C11"],
         "rule": "formats with verbs valid for their operands, flags, width, precision; operands mixing declared-safe leaves (SafeValue types, registered types in the configurations that register them, Safe()-wrapped) and unsafe leaves at top level and inside []interface{}, [2]interface{} and exported interface struct fields; reference text = fmt.Sprintf on the same tree in which every unsafe leaf is replaced by a Formatter that prints only the line feeds of the leaf's rendering under the active directive; both registry configurations",
         "assumptions": ["map keys cannot be blanked in the reference (string-typed keys) and are exercised by the correspondence only"],
     },
     "C06": {
-        "gens": [Q("q06", 3200, 100000)],
+        "gens": [Q("q06", 12800, 100000)],
         "qtags": ["Q:C06", "Q:C11"],
         "rule": "x from the full value zoo incl. user methods that call back through Print/Printf/Safe*/Unsafe*/Write, error hook on/off, registry on/off, every verb and flag subset; wrappers nested up to depth 3; Unsafe(x): nothing but line feeds outside envelopes; Safe(x) for x without own classification: no envelope; characters = fmt's for fmt-compatible x",
     },
@@ -78,12 +78,12 @@ PROPS = {
         "assumptions": ["regexp engine semantics for the two fixed patterns modelled at token level (validated here exhaustively up to the bound)"],
     },
     "C08": {
-        "gens": [Q("q08", 1600, 60000)],
+        "gens": [Q("q08", 6400, 60000)],
         "qtags": ["Q:C08", "Q:C11"],
         "rule": "redactables obtained from the library by iterating Sprint/Sprintf/Join/StringBuilder from hostile seeds up to the depth; every directive other than %T/%p with flags/width/precision; containers (slice, map value, exported and unexported struct fields, pointer to struct); Sprintf concatenation; Join/JoinTo with redactable delimiters; Redact/StripMarkers distribute",
     },
     "C09": {
-        "gens": [Q("q09", 1600, 60000)] + BUF,
+        "gens": [Q("q09", 6400, 60000)] + BUF,
         "qtags": ["Q:C09", "Q:C11"],
         "rule": "random sequences (1-6, sometimes 10-40) of the 17 SafeWriter/io.Writer calls incl. nested Print/Printf with valid-UTF-8 hostile payloads, run through StringBuilder, the Sprintfn printer and a SafeFormat printer; the three results are compared with the payload concatenations (stripped / envelopes deleted) and with each other up to merging; ManualBuffer: " + BUFRULE,
     },
@@ -95,19 +95,19 @@ PROPS = {
         "assumptions": ["regexp engine semantics for [‹›] modelled at token level (validated here)"],
     },
     "C11": {
-        "gens": [Q("q11", 1600, 60000)] + BUFINV + [Q("printer", 1600, 60000)],
+        "gens": [Q("q11", 6400, 60000)] + BUFINV + [Q("printer", 6400, 60000)],
         "qtags": ["Q:C11"],
         "rule": "every rune class (negative, surrogates incl. both ends, > MaxRune, boundaries) and all 256 bytes through SafeRune/UnsafeRune/SafeByte/UnsafeByte/WriteRune/WriteByte on StringBuilder, SafePrinter and ManualBuffer in 5 buffer states; JoinTo with 14 non-slice/nil/typed-nil/slice operands; user methods made to panic at every position of their script (plain and nested payloads), at top level and inside slices/structs, with and without hook: text before and after intact; ManualBuffer histories with invalid runes (state compared with the model); " + PRINTRULE,
         "assumptions": ["Grow(n<0) and memory exhaustion are outside the claim", "a panic raised while a panic payload is printed, or by the Sprintfn callback itself, propagates (as in fmt)"],
     },
     "C12": {
-        "gens": [Q("q12", 60, 600, shards=4), Q("printer", 1600, 60000)],
+        "gens": [Q("q12", 60, 600, shards=4), Q("printer", 6400, 60000)],
         "qtags": ["Q:C12", "Q:C11"],
         "rule": "histories of 1-6 prior calls (outputs > 64 KiB, nested panics incl. inside nested printers, %w and misused %w, argument indexes with '*', Safe/Unsafe around nested printers, panicking Sprintfn callback, bad verbs, random printer cases) followed by 16 fixed probes whose results are compared with those of a freshly started process (the harness re-executes itself); pool allocation counter proves the probes ran on recycled printers; then 16 goroutines x 40 mixed calls compared with the same baseline; after EVERY random printer case: three unrelated calls on the recycled printers must give the results taken at process start, and the string already returned to the caller must still read the same (it shares the printer's backing array); " + PRINTRULE,
         "assumptions": ["schedules and data races: runtime evidence only (16 goroutines, results compared); not a theorem"],
     },
     "C13": {
-        "gens": BUF + [Q("q09", 1600, 60000)],
+        "gens": BUF + [Q("q09", 6400, 60000)],
         "qtags": ["Q:C13", "Q:C11"],
         "rule": BUFRULE + "; accessors/Take/Reset occur at every position; strings handed out earlier are re-read at the end; StringBuilder sequences re-run with accessors inserted between the calls",
         "exhaustive": True,
@@ -120,18 +120,18 @@ PROPS = {
         "exhaustive": True,
     },
     "C15": {
-        "gens": [Q("q15", 3200, 100000)],
+        "gens": [Q("q15", 12800, 100000)],
         "qtags": ["Q:C15", "Q:C11"],
         "rule": "formats with 1-4 directives of which each is %w or %v with flags/width/precision, operands: pointer errors, wrapping errors, Safe/Unsafe-wrapped errors, nil, int, string, struct; hook on/off; returned error identity against the property's prescription; text against Sprintf with the correct %w read as %v; against fmt.Errorf (message and Unwrap) for at most one %w",
         "assumptions": ["%w carrying a + or # flag is not compared with fmt.Errorf: the standard library changed how it sets these flags up for w after the fork was taken (Go 1.20)"],
     },
     "C16": {
-        "gens": [Q("q16", 1600, 60000)],
+        "gens": [Q("q16", 6400, 60000)],
         "qtags": ["Q:C16", "Q:C11"],
         "rule": "each random argument list / format is printed through Sprint(f), Fprint(f) (writers that succeed, fail, write short), StringBuilder.Print(f), SafePrinter.Print(f) inside Sprintfn and inside a SafeFormat method; identical bytes for the S/F pair, equality up to merging of adjacent envelopes for the others, one Write, (n, err) passthrough; " + PRINTRULE,
     },
     "C17": {
-        "gens": [Q("q17", 400, 8000)],
+        "gens": [Q("q17", 1600, 8000)],
         "qtags": ["Q:C17", "Q:C11"],
         "rule": "6 error kinds (plain, wrapping, also Stringer, also Formatter, nil receiver, one making the hook panic) x 9 directives x hook on/off x 5 positions (top level, []interface{}, map value, exported error field, interface field behind a pointer) + Unsafe() + self-classifying errors + %w through HelperForErrorf; the hook records (error, verb); plus scripted hooks compared with the model",
     },
